@@ -19,8 +19,10 @@ CFG = {
                   "keys, plain and Safe variants) and evaluating model and specification on the same sequences inside Coq.",
     "level_note": "UnmarshalJSON into a USED container is exercised as an operation of the sequences (one step in ten, int / string keys, maps, sets and bidi-maps, plain and Safe): the code decodes, "
                   "calls Clear() and re-inserts, so on model and reference it is the operation list Clear; Put... / Clear; Add... (mact_ops / sact_ops / bact_ops in Check.v) that the theorems already "
-                  "cover; a decoder that merges into the used container is a kind-2 disagreement with the reference map. The harness writes those documents itself (distinct keys and values), "
-                  "independently of MarshalJSON (C15). "
+                  "cover; a decoder that merges into the used container is a kind-2 disagreement with the reference map. The harness writes those documents itself, independently of MarshalJSON (C15), and as no MarshalJSON would: members in any "
+                  "order, distinct member names, repeated values (a bidi-map document in which several keys carry one value: UnmarshalJSON ranges over a Go map, so any order of the Puts is a "
+                  "legal execution and per value any one carrier may survive - bload_order in Check.v puts the members the snapshot still reports last, which reproduces every legal result and "
+                  "makes every other snapshot a kind-2 disagreement), set documents with repeated and unsorted elements, {} / [] / null. Documents with a repeated member NAME are not generated. "
                   "treeset / treebidimap: the correspondence check (C09/Check.v) now evaluates the red-black models themselves (rb_set_step, rb_bidi_step, ts_union / "
                   "ts_inter / ts_diff) against the recorded snapshots, with the comparator shape the container was built with: the built-in -1/0/+1 comparator or a user "
                   "comparator a-b, b-a, (b-a)*7, (a-b)*3, k*strings.Compare, a struct field of a pointer key (cmpsel / cmp_of in Check.v: k*(a-b) on the key numbers, which has "
